@@ -41,6 +41,12 @@ CLAIMS["C24"] = {
     "note": "Trusted: sqlite's semantics for the UPSERT/DELETE/UPDATE subset as encoded (validated each run against real sqlite 3.40 on 336 boundary vectors and on every solver model); the Rust glue that binds parameters and maps results is outside; columns are non-NULL.",
 }
 
+CLAIMS["C27"] = {
+    "technique": _T + " of the agent client against a canned-response stream, one harness per response layout; symbolic key/signature bytes for the round trips",
+    "text": "For every response layout listed (lengths 0..32, identities answers and sign responses, count field concrete per layout, all remaining bytes symbolic) the solver shows that request_identities / sign / query_extension return a value or an error and never panic (index, slice-length, overflow, unwrap), and that every 32-byte public key and 64-byte signature written in the SSH wire encoding reads back unchanged with the reader fully consumed.",
+    "note": "Trusted: Kani/CBMC; stubs for String::from_utf8_lossy and zeroize's spare-capacity wiping. Outside: longer responses, the Unix socket stream, SecretKey encoding.",
+}
+
 NOT_APPLICABLE = {
     "C01": "post-fetch refdb contents vs signed refs: decided inside FetchState::run over gix transport, libgit2 ref transactions and ed25519 signatures (FFI / curve arithmetic) - not encodable for CBMC/SMT within reach (DESIGN §7)",
     "C02": "threshold gate and Behind/Diverged handling are statements inside FetchState::run between git I/O calls; no function boundary to drive symbolically (DESIGN §7)",
